@@ -67,15 +67,14 @@ theorem dictSet_refs {es : List (DKey × Ref)} {k : DKey} {child c : Ref} (hg : 
   | nil => simp [dictGet] at hg
   | cons e es ih =>
     obtain ⟨k0, v0⟩ := e
-    by_cases hk : k0 = k
-    · subst hk
-      simp [dictGet] at hg
+    by_cases hk : k0.norm = k.norm
+    · simp [dictGet, hk] at hg
       subst hg
-      refine ⟨0, by simp, by simp [dictSet], ?_⟩
+      refine ⟨0, by simp, by simp [dictSet, hk], ?_⟩
       intro i hi
       cases i with
       | zero => exact absurd rfl hi
-      | succ i => simp [dictSet]
+      | succ i => simp [dictSet, hk]
     · simp [dictGet, hk] at hg
       obtain ⟨j, h1, h2, h3⟩ := ih hg
       refine ⟨j + 1, by simpa using h1, by simpa [dictSet, hk] using h2, ?_⟩
@@ -99,8 +98,9 @@ theorem Node.slotPut_existing {n n' : Node} {k : PKey} {child c : Ref} (hg : n.s
       cases hg
       simp [Node.slotPut] at hp
       subst hp
-      refine ⟨?_, dictSet_refs hd⟩
-      have := dictSet_keys_of_mem es (v' := c) hd
+      have hd' : dictGet es k.stored = some child := by rw [← dictGet_norm, PKey.stored_norm]; exact hd
+      refine ⟨?_, dictSet_refs hd'⟩
+      have := dictSet_keys_of_mem es (v' := c) hd'
       simp only [Node.skel, Node.dict.injEq]
       have h2 : ∀ l : List (DKey × Ref), l.map (fun e => (e.1, 0)) = (l.map (·.1)).map (fun k => (k, 0)) := by
         intro l; simp
